@@ -202,7 +202,7 @@ Proof.
 Qed.
 
 (* the guard on a function: junk-safe expressions, well-formed returns/assignments, distinct parameter names *)
-Definition fun_ok (fd : fundecl) : bool := safe_fun fd && nodup_names (fd_params fd).
+Definition fun_ok (fd : fundecl) : bool := safe_fun fd && nodup_names (fd_params fd) && rets_ok_fun fd.
 
 Lemma nodup_names_NoDup l : nodup_names l = true -> NoDup (map fst l).
 Proof.
@@ -263,7 +263,7 @@ Lemma fun_runs f fd cf : compile_fun cfg fd = COk cf -> good cf -> fun_ok fd = t
     = ret cfg (ExprCorrect.S (link cf) B IB (len O) (len IO) K pc' L' IL' X' XI' vl') cr.
 Proof.
   intros Hcf Hgood Hok args sto0 o r Hbp Hexec Hres O IO vl K B IB.
-  unfold fun_ok in Hok. apply andb_prop in Hok as [Hsafe Hnd]. apply nodup_names_NoDup in Hnd.
+  unfold fun_ok in Hok. apply andb_prop in Hok as [Hok _]. apply andb_prop in Hok as [Hsafe Hnd]. apply nodup_names_NoDup in Hnd.
   unfold compile_fun in Hcf.
   cinv Hcf. rename a into rt. destruct (negb (supported rt)); [discriminate|].
   cinv Hcfb. destruct a as [[[op ip] nobj] nint]. cinv Hcfbb. destruct a as [st rb].
@@ -434,13 +434,13 @@ Proof.
   - pose proof Hcf as Hcf2. unfold compile_fun in Hcf2. (* nobj = number of object arguments *)
     cinv Hcf2. destruct (negb (supported a)); [discriminate|]. cinv Hcf2b. destruct a0 as [[[op ip] nobj] nint]. cinv Hcf2bb. destruct a0 as [st rb].
     destruct (negb (jumps_fit _)); [discriminate|]. rewrite (lk_nobj _ _ Hlink). inversion Hcf2bbb; subst cf. cbn [cf_nobj].
-    unfold fun_ok in Hok. apply andb_prop in Hok as [_ Hnd]. apply nodup_names_NoDup in Hnd.
+    unfold fun_ok in Hok. apply andb_prop in Hok as [Hok _]. apply andb_prop in Hok as [_ Hnd]. apply nodup_names_NoDup in Hnd.
     destruct (split_bind _ _ _ _ _ _ _ _ _ _ _ _ [] [] Hcf2ba Ebp Hnd) as (Hno & _); try reflexivity; try (intros x i Hx; discriminate). { intros x _. auto. }
     cbn [app] in Hno. rewrite Hno, len_rev. lia.
   - pose proof Hcf as Hcf2. unfold compile_fun in Hcf2.
     cinv Hcf2. destruct (negb (supported a)); [discriminate|]. cinv Hcf2b. destruct a0 as [[[op ip] nobj] nint]. cinv Hcf2bb. destruct a0 as [st rb].
     destruct (negb (jumps_fit _)); [discriminate|]. rewrite (lk_nint _ _ Hlink). inversion Hcf2bbb; subst cf. cbn [cf_nint].
-    unfold fun_ok in Hok. apply andb_prop in Hok as [_ Hnd]. apply nodup_names_NoDup in Hnd.
+    unfold fun_ok in Hok. apply andb_prop in Hok as [Hok _]. apply andb_prop in Hok as [_ Hnd]. apply nodup_names_NoDup in Hnd.
     destruct (split_bind _ _ _ _ _ _ _ _ _ _ _ _ [] [] Hcf2ba Ebp Hnd) as (_ & Hni & _); try reflexivity; try (intros x i Hx; discriminate). { intros x _. auto. }
     cbn [app] in Hni. rewrite Hni, len_rev. lia.
 Qed.
